@@ -198,7 +198,7 @@ pub fn problem_spec(max_jobs: usize) -> impl Strategy<Value = ProblemSpec> {
             prop::collection::vec(any::<u16>(), 0..3),
             prop::collection::vec(job_spec(nloc, dims), 1..=max_jobs),
             prop::collection::vec(vehicle_spec(nloc, dims), 1..=3),
-            0u8..8,
+            0u8..17,
             4u8..30,
             any::<u16>(),
         )
@@ -669,7 +669,16 @@ pub fn render(spec: &ProblemSpec) -> Rendered {
                 base.remove(if any_value { 2 } else { 1 });
                 base
             }),
-            _ => Some(vec![MinimizeUnassigned { breaks: Some(2.) }, MinimizeDuration]),
+            7 => Some(vec![MinimizeUnassigned { breaks: Some(2.) }, MinimizeDuration]),
+            8 => Some(vec![MinimizeUnassigned { breaks: None }, MinimizeTours, BalanceMaxLoad, MinimizeCost]),
+            9 => Some(vec![MinimizeUnassigned { breaks: None }, BalanceActivities, MinimizeCost]),
+            10 => Some(vec![MinimizeUnassigned { breaks: None }, MinimizeTours, BalanceDistance, MinimizeDistance]),
+            11 => Some(vec![MinimizeUnassigned { breaks: None }, BalanceDuration, MinimizeDuration]),
+            12 => Some(vec![MinimizeUnassigned { breaks: None }, MinimizeArrivalTime, MinimizeCost]),
+            13 => Some(vec![MinimizeUnassigned { breaks: None }, MultiObjective { strategy: api::MultiStrategy::WeightedSum { weights: vec![100., 1.] }, objectives: vec![MinimizeTours, MinimizeCost] }]),
+            14 => Some(vec![MinimizeUnassigned { breaks: None }, MaximizeTours, MinimizeCost]),
+            15 => Some(vec![MinimizeUnassigned { breaks: None }, FastService, MinimizeCost]),
+            _ => Some(vec![MinimizeUnassigned { breaks: None }, CompactTour { job_radius: 2 }, MinimizeCost]),
         }
     };
     // E1607: jobs with value require a maximize-value objective in an explicit list
@@ -683,6 +692,12 @@ pub fn render(spec: &ProblemSpec) -> Rendered {
         feat("explicit_objectives");
         if o.iter().any(|o| matches!(o, api::Objective::TourOrder)) {
             feat("soft_order");
+        }
+        if o.iter().any(|o| matches!(o, api::Objective::BalanceMaxLoad | api::Objective::BalanceActivities | api::Objective::BalanceDistance | api::Objective::BalanceDuration)) {
+            feat("balance_objective");
+        }
+        if o.iter().any(|o| matches!(o, api::Objective::MinimizeArrivalTime | api::Objective::MultiObjective { .. } | api::Objective::MaximizeTours | api::Objective::FastService | api::Objective::CompactTour { .. })) {
+            feat("rare_objective");
         }
     }
 
